@@ -91,6 +91,42 @@ pub fn synth_tzif(k: u32, with_transition: bool) -> Vec<u8> {
     out
 }
 
+/// A synthetic TZif v2 file with a daylight saving rule in its footer: two
+/// local time types (standard, daylight), one explicit transition to
+/// standard time at 2000-01-01T00:00Z (before it: daylight time), and the
+/// POSIX rule `rule`, which must describe the same two types and have
+/// 1 January in standard time.
+pub fn synth_tzif_footer(rule: &str, std_off: i32, std_ab: &str, dst_off: i32, dst_ab: &str) -> Vec<u8> {
+    let mut out = Vec::with_capacity(200);
+    // v1 block: one type, no transitions.
+    header(&mut out, 0, 1, std_ab.len() as u32 + 1);
+    out.extend_from_slice(&std_off.to_be_bytes());
+    out.push(0);
+    out.push(0);
+    out.extend_from_slice(std_ab.as_bytes());
+    out.push(0);
+    // v2 block: type 0 = daylight (the type before the first transition),
+    // type 1 = standard.
+    let charcnt = (dst_ab.len() + 1 + std_ab.len() + 1) as u32;
+    header(&mut out, 1, 2, charcnt);
+    out.extend_from_slice(&946_684_800i64.to_be_bytes());
+    out.push(1);
+    out.extend_from_slice(&dst_off.to_be_bytes());
+    out.push(1);
+    out.push(0);
+    out.extend_from_slice(&std_off.to_be_bytes());
+    out.push(0);
+    out.push((dst_ab.len() + 1) as u8);
+    out.extend_from_slice(dst_ab.as_bytes());
+    out.push(0);
+    out.extend_from_slice(std_ab.as_bytes());
+    out.push(0);
+    out.push(b'\n');
+    out.extend_from_slice(rule.as_bytes());
+    out.push(b'\n');
+    out
+}
+
 /// Builds an Android `tzdata` image from `(name, tzif bytes)` entries, in
 /// the order given.
 pub fn android_image(version: &str, entries: &[(String, Vec<u8>)]) -> Vec<u8> {
